@@ -32,7 +32,8 @@ def _rand_size(rng, lo=1, hi=64):
 
 def _code(rng, maxsize=8, position=None):
     size = rng.randrange(1, maxsize + 1)
-    c = {'value': rng.randrange(0, 1 << size), 'size': size}
+    # zero is a value like any other (and the one a truthiness test gets wrong): keep it frequent
+    c = {'value': 0 if rng.random() < 0.15 else rng.randrange(0, 1 << size), 'size': size}
     pos = position if position is not None else rng.choice([None, 'suffix', 'prefix', 'prefix'])
     if pos:
         c['position'] = pos
@@ -136,11 +137,11 @@ def gen_operand(rng, kind, regs, endian, addr_bits, zones, with_code=None, neste
     if kind == 'enumeration':
         keys = rng.sample(ENUM_KEYS, rng.randrange(1, 5))
         a = _arg(rng, endian, lo=1, hi=16)
-        a['value_dict'] = {k: rng.randrange(0, 1 << a['size']) for k in keys}
+        a['value_dict'] = {k: (0 if rng.random() < 0.2 else rng.randrange(0, 1 << a['size'])) for k in keys}
         c = {'type': 'enumeration', 'argument': a}
         if wc:
             size = rng.randrange(1, 7)
-            bd = {k: rng.randrange(0, 1 << size) for k in keys if rng.random() < 0.8}
+            bd = {k: (0 if rng.random() < 0.2 else rng.randrange(0, 1 << size)) for k in keys if rng.random() < 0.8}
             c['bytecode'] = {'size': size, 'value_dict': bd}
             if rng.random() < 0.5:
                 c['bytecode']['position'] = rng.choice(['prefix', 'suffix'])
@@ -151,12 +152,12 @@ def gen_operand(rng, kind, regs, endian, addr_bits, zones, with_code=None, neste
         r = rng.random()
         if r < 0.66:
             size = rng.randrange(1, 7)
-            c['bytecode'] = {'size': size, 'value_dict': {m: rng.randrange(0, 1 << size) for m in members}}
+            c['bytecode'] = {'size': size, 'value_dict': {m: (0 if rng.random() < 0.2 else rng.randrange(0, 1 << size)) for m in members}}
             if rng.random() < 0.5:
                 c['bytecode']['position'] = rng.choice(['prefix', 'suffix'])
         if r > 0.33:
             a = _arg(rng, endian, lo=1, hi=16)
-            a['value_dict'] = {m: rng.randrange(0, 1 << a['size']) for m in members}
+            a['value_dict'] = {m: (0 if rng.random() < 0.2 else rng.randrange(0, 1 << a['size'])) for m in members}
             c['argument'] = a
         return c
     if kind == 'numeric_bytecode':
